@@ -93,7 +93,9 @@ func vInvLogClauses(r *Raft, env *vEnv, w int) []bool {
 	empty := vAnd(s.low == 0, s.high == 0)
 	// cached last log
 	c1 := vImplies(!empty, vAnd(r.lastLogIndex == s.high, r.lastLogTerm == s.term.Get(s.high)))
-	c1 = vAnd(c1, vImplies(empty, vOr(vAnd(r.lastLogIndex == 0, r.lastLogTerm == 0), vAnd(r.lastLogIndex == snap, r.lastLogTerm == r.lastSnapshotTerm))))
+	// with an empty store the cached position is harmless iff it does not lie above the snapshot
+	// (getLastEntry then answers with the snapshot) or names the snapshot itself
+	c1 = vAnd(c1, vImplies(empty, vOr(r.lastLogIndex < snap, vAnd(r.lastLogIndex == snap, r.lastLogTerm == r.lastSnapshotTerm))))
 	// the log reaches down to the snapshot (coverage) and is contiguous
 	c2 := vImplies(!empty, vAnd(s.low <= snap+1, s.contiguous(s.low, s.high)))
 	// terms: non-decreasing, bounded by the current term, not below the snapshot's term above it
